@@ -9,7 +9,7 @@ suite=$(cargo test --offline --lib 2>&1 | grep "^test result" | head -1)
 mkdir -p tests; cp "$seed/demo.rs" tests/demo.rs
 cargo test --offline --test demo > /tmp/confirm_demo.out 2>&1; wrc=$?
 with="exit=$wrc $(grep -E "^test result|SIGABRT|SIGSEGV" /tmp/confirm_demo.out | head -1)"
-[ $wrc -ne 0 ] && echo "$with" | grep -q "test result" || with="$with FAILED(abort)"
+if [ $wrc -ne 0 ] && ! echo "$with" | grep -q "test result"; then with="$with FAILED(abort)"; fi
 git checkout -q -- .
 without=$(cargo test --offline --test demo 2>&1 | grep "^test result" | head -1)
 rm -rf tests
